@@ -347,8 +347,9 @@ class SchedLock:
     its result), `block` (a blocking acquire was requested), `acquired` (a blocking acquire was granted or
     timed out, with its result), `release` (with False if the lock was not held)."""
 
-    def __init__(self, sched, on_event=None, name="lock", reentrant=False):
+    def __init__(self, sched, on_event=None, name="lock", reentrant=False, pre_event=None):
         self.sched = sched
+        self.pre_event = pre_event or (lambda kind: None)   # called at the scheduling point, before the operation
         self.held = False
         self.name = name
         self.reentrant = reentrant
@@ -366,6 +367,7 @@ class SchedLock:
 
     def acquire(self, blocking=True, timeout=-1):
         self.sched.before_action(self.name + ".acquire")
+        self.pre_event("try" if not blocking else "block")
         if not blocking:
             ok = self._free_for_me()
             if ok:
@@ -387,6 +389,7 @@ class SchedLock:
 
     def release(self):
         self.sched.before_action(self.name + ".release")
+        self.pre_event("release")
         if not self.held or (self.reentrant and self.owner != self.sched.current()):
             self.on_event("release", False)
             raise RuntimeError("release unlocked lock")
